@@ -117,7 +117,7 @@ static site *site_of (void *ra)
 
 /* pointers we have named (open addressing) */
 #define PH 16384
-static const void *pk[PH]; static unsigned char pcode[PH]; static int pidx[PH];   /* code: 1 queue, 2 root */
+static const void *pk[PH]; static unsigned char pcode[PH]; static int pidx[PH];   /* code: 1 queue, 2 root, 3 aberth, 4 gaberth, 5 gs */
 static unsigned pslot (const void *p) { return (unsigned) (((uintptr_t) p >> 3) * 2654435761u) & (PH - 1); }
 static int pknown (const void *p) { unsigned i = pslot (p); while (pk[i]) { if (pk[i] == p) return 1; i = (i + 1) & (PH - 1); } return 0; }
 static void pput (const void *p, int code, int idx) { unsigned i = pslot (p); while (pk[i] && pk[i] != (void *) 1 && pk[i] != p) i = (i + 1) & (PH - 1); pk[i] = p; pcode[i] = (unsigned char) code; pidx[i] = idx; }
@@ -156,7 +156,7 @@ static void name_it (const void *m, const char *cls, int idx)
   char buf[128];
   snprintf (buf, sizeof buf, "%s.%d", cls, idx);
   vf_name_object (m, buf);
-  pput (m, !strcmp (cls, "queue") ? 1 : !strcmp (cls, "root") ? 2 : 0, idx);
+  pput (m, !strcmp (cls, "queue") ? 1 : !strcmp (cls, "root") ? 2 : !strcmp (cls, "aberth") ? 3 : !strcmp (cls, "gaberth") ? 4 : !strcmp (cls, "gs") ? 5 : 0, idx);
 }
 
 /* the context being solved (captured by --wrap=mps_mpsolve): lets the harness export, at the creation
@@ -186,6 +186,82 @@ static void packet_end (void)
   vf_event ("pk_end", 0);
 }
 
+
+/* ------------------------------------------------------------------ observations for the REFINED worker model
+ * (coq/Conc/WorkerRefined.v).  -Wl,--wrap=mps_thread_pool_assign: a task whose body is one of the six iteration
+ * workers is started through a trampoline that marks, ON THE EXECUTING THREAD, the begin and the end of the task:
+ *     ev w_req <required_zeros>   ev w_nz <*nzeros>   ev w_ex <*excep>   ev w_begin <variant 0..5>   ...   ev w_end 0
+ * -Wl,--wrap=mps_thread_job_queue_next:   ev job <-1 | iter*1024 + i>   (the job the worker was handed)
+ * and before every lock / unlock call of a worker on a queue / root / Aberth / global Aberth / gs mutex:
+ *     ev st <8*(*nzeros) + 4*(has a job) + 2*(*excep) + root[i]->again>       (i = root of the current job)
+ *     ev vh <j*2^24 + hash24 (root[j]->fvalue, dvalue, mvalue)>               (root / Aberth mutex number j only)
+ * (events are not scheduling points; they sit in the atomic block that ends with the call). */
+typedef struct { mps_thread_work fn; void *args; int variant; } tramp_arg;
+static __thread mps_thread_worker_data *tl_data = NULL; static __thread int tl_root = -1; static __thread int tl_variant = -1;
+/* mps_secular_ga_{d,m}iterate leave data->excep (and every secular packet data->required_zeros) uninitialised: the d / m secular
+ * bodies never read them, so the harness must not either */
+#define TL_EXCEP(d) ((tl_variant >= 0 && tl_variant <= 3 && (d)->excep && *(d)->excep) ? 1 : 0)
+static const char *const worker_names[6] = { "mps_thread_fpolzer_worker", "mps_thread_dpolzer_worker", "mps_thread_mpolzer_worker",
+  "__mps_secular_ga_fiterate_worker", "__mps_secular_ga_diterate_worker", "__mps_secular_ga_miterate_worker" };
+static int variant_of_fn (void *fn)
+{
+  const char *nm; int v;
+  if (!n_syms) return -1;
+  nm = fn_of (fn);
+  for (v = 0; v < 6; v++) { size_t k = strlen (worker_names[v]); if (!strncmp (nm, worker_names[v], k) && (nm[k] == 0 || nm[k] == '.')) return v; }
+  return -1;
+}
+static void *tramp (void *p)
+{
+  tramp_arg a = *(tramp_arg *) p; void *r; mps_thread_worker_data *d = (mps_thread_worker_data *) a.args;
+  free (p);
+  tl_data = d; tl_root = -1; tl_variant = a.variant;
+  vf_event ("w_req", a.variant <= 2 ? d->required_zeros : 0); vf_event ("w_nz", d->nzeros ? *d->nzeros : 0); vf_event ("w_ex", TL_EXCEP (d));
+  vf_event ("w_begin", a.variant);
+  r = a.fn (a.args);
+  vf_event ("w_end", 0);
+  tl_data = NULL; tl_root = -1; tl_variant = -1;
+  return r;
+}
+void __real_mps_thread_pool_assign (mps_context *s, mps_thread_pool *pool, mps_thread_work work, void *args);
+void __wrap_mps_thread_pool_assign (mps_context *s, mps_thread_pool *pool, mps_thread_work work, void *args)
+{
+  int v = (vf_self () >= 0 && g_ctx) ? variant_of_fn ((void *) work) : -1;
+  if (v >= 0) {
+    tramp_arg *a = (tramp_arg *) malloc (sizeof (tramp_arg)); a->fn = work; a->args = args; a->variant = v;
+    __real_mps_thread_pool_assign (s, pool, tramp, a);
+  } else __real_mps_thread_pool_assign (s, pool, work, args);
+}
+mps_thread_job __real_mps_thread_job_queue_next (mps_context *s, mps_thread_job_queue *q);
+mps_thread_job __wrap_mps_thread_job_queue_next (mps_context *s, mps_thread_job_queue *q)
+{
+  mps_thread_job j = __real_mps_thread_job_queue_next (s, q);
+  if (tl_data) { tl_root = (j.iter == MPS_THREAD_JOB_EXCEP) ? -1 : j.i; vf_event ("job", j.iter == MPS_THREAD_JOB_EXCEP ? -1L : (long) j.iter * 1024L + j.i); }
+  return j;
+}
+static uint32_t hmix (uint32_t h, const void *p, size_t n) { const unsigned char *c = (const unsigned char *) p; size_t i; for (i = 0; i < n; i++) { h ^= c[i]; h *= 16777619u; } return h; }
+static uint32_t hmpf (uint32_t h, mpf_srcptr f)
+{
+  long sz = f->_mp_size, ex = f->_mp_exp; size_t k = (size_t) (sz < 0 ? -sz : sz);
+  h = hmix (h, &sz, sizeof sz); if (k) { h = hmix (h, &ex, sizeof ex); h = hmix (h, f->_mp_d, k * sizeof (mp_limb_t)); }
+  return h;
+}
+static void observe (pthread_mutex_t *m)
+{
+  int ix, code; mps_thread_worker_data *d = tl_data; mps_context *s = g_ctx;
+  if (!d || !s || vf_self () < 0) return;
+  code = pcode_of (m, &ix);
+  if (code < 1 || code > 5) return;
+  vf_event ("st", 8L * (d->nzeros ? *d->nzeros : 0) + (tl_root >= 0 ? 4 : 0) + (TL_EXCEP (d) ? 2 : 0)
+                  + ((tl_root >= 0 && tl_root < s->n && s->root[tl_root]->again) ? 1 : 0));
+  if ((code == 2 || code == 3) && ix >= 0 && ix < s->n) {
+    mps_approximation *r = s->root[ix]; uint32_t h = 2166136261u;
+    h = hmix (h, r->fvalue, sizeof (cplx_t)); h = hmix (h, r->dvalue, sizeof (cdpe_t));
+    h = hmpf (h, r->mvalue->r); h = hmpf (h, r->mvalue->i);
+    vf_event ("vh", ((long) ix << 24) + (long) (h & 0xffffffu));   /* vf_event keeps 32 bits */
+  }
+}
+
 int __wrap_vf_mutex_init (pthread_mutex_t *m, const pthread_mutexattr_t *a)
 {
   void *ra = __builtin_return_address (0);
@@ -207,6 +283,7 @@ int __wrap_vf_mutex_unlock (pthread_mutex_t *m)
   semx *s = (vf_self () >= 0 && n_sems) ? sem_of (m) : NULL;
   if (!s) {
     int ix;
+    observe (m);
     if (vf_self () >= 0 && g_ctx && pcode_of (m, &ix) == 2 && ix < g_ctx->n) vf_event ("again_u", 2 * ix + (g_ctx->root[ix]->again ? 1 : 0));
     return __real_vf_mutex_unlock (m);
   }
@@ -240,6 +317,7 @@ int __wrap_vf_mutex_lock (pthread_mutex_t *m)
     __real_vf_mutex_unlock (&sx->aux);
     return 0;
   }
+  if (!first) observe (m);
   r = __real_vf_mutex_lock (m);
   if (!first && g_ctx) { int ix; if (pcode_of (m, &ix) == 2 && ix < g_ctx->n) vf_event ("again_l", 2 * ix + (g_ctx->root[ix]->again ? 1 : 0)); }
   if (first) {
